@@ -183,8 +183,43 @@ func advVerdict(r *vcore.Run, tname, lname, inputClass string, err error, sk *si
 	}
 	rep["gadget_result"] = bigStrs(got[:])
 	r.Count("adv.lies.ACCEPTED-WITH-WRONG-RESULT", 1)
-	r.Violation("adv/"+stripBuilder(tname)+"/lying-hints-accepted-with-wrong-result/"+lname,
-		fmt.Sprintf("Solve succeeded under the hint lie %q and the gadget output differs from the group law (%s): an unsound gadget lets a prover choose the result", lname, inputClass), rep)
+	r.Count("adv.lies.ACCEPTED-WITH-WRONG-RESULT."+stripBuilder(tname)+"/"+lname, 1)
+	gadget, defect := advDefect(tname, lname)
+	r.Violation("adv/"+gadget+"/UNSOUND/"+defect,
+		fmt.Sprintf("Solve of %s succeeded under the hint lie %q and the gadget output differs from the group law (%s): an unsound gadget lets a prover choose the result", stripBuilder(tname), lname, inputClass), rep)
+}
+
+// advDefect maps an accepted lie to the defect it exploits, so that one defect
+// of one gadget has one signature whatever the tier, the seed, the constraint
+// system, the arithmetic mode it was observed in and the particular lie used.
+// gadget is the target without builder and mode.
+func advDefect(tname, lname string) (gadget, defect string) {
+	gadget = stripBuilder(tname)
+	complete := strings.Contains(gadget, "/complete")
+	gadget = strings.Replace(strings.Replace(gadget, "/incomplete", "", 1), "/complete", "", 1)
+	switch {
+	case strings.HasPrefix(gadget, "twistededwards.ScalarMul"):
+		// every accepted lie uses the same hole: s1 + s2*s = k*Order is checked in
+		// the native field with a free quotient k
+		return gadget, "scalar-decomposition-checked-modulo-the-native-field-with-a-free-quotient"
+	case strings.HasPrefix(gadget, "sw_emulated.ScalarMul"):
+		switch {
+		case strings.HasPrefix(lname, "result=") && complete:
+			// result hint alone: only the special cases of the complete-arithmetic
+			// code path (s in {0,±1}, P=(0,0), or the selector computed from the
+			// hinted point) let it through
+			return gadget, "complete-arithmetic-special-cases-accept-a-forged-result"
+		case strings.HasPrefix(lname, "decomposition=all-zero"):
+			return gadget, "zero-sub-scalars-accepted"
+		case strings.HasPrefix(lname, "forge:"):
+			return gadget, "sub-scalars-not-range-checked"
+		}
+	case strings.HasPrefix(gadget, "sw_emulated.JointScalarMulBase"):
+		if strings.HasPrefix(lname, "decomposition") {
+			return gadget, "sub-scalar-bits-above-nbits-ignored"
+		}
+	}
+	return gadget, "lie:" + lname
 }
 
 // counted wraps a hint so that calls are counted.
@@ -235,10 +270,10 @@ func runAdversary(r *vcore.Run) {
 	run(func() { advEmu(r, "P-256", "ScalarMul", true) })
 	run(func() { advNativeSW(r) })
 	run(func() { advEcdsaForge(r) })
+	run(func() { advEmu(r, "secp256k1", "JointScalarMulBase", false) })
 	if r.Thorough() {
 		run(func() { advEmu(r, "secp256k1", "ScalarMul", false) })
 		run(func() { advEmu(r, "P-256", "ScalarMul", false) })
-		run(func() { advEmu(r, "secp256k1", "JointScalarMulBase", false) })
 		run(func() { advPairing(r) })
 		run(func() { advCompiledSignatures(r) })
 	}
